@@ -271,7 +271,7 @@ pub const CELLS: &[&str] = &["A1", "B1", "C1", "A2", "B2", "C2", "A3", "B3", "D5
 pub const ALPHABETS: &[&[&str]] = &[
     &["a", "b", "c", "x", "y", "z", "0", "1", " "],
     &["&", "<", ">", "\"", "'", "a", ";", "&amp;"],
-    &[" ", "  ", "\n", "\t", "a", "b"],
+    &[" ", "  ", "\n", "\t", "a", "b", "\r\n"],
     &["é", "ß", "日本", "😀", "𝄞", "Ω", "a"],
 ];
 
